@@ -29,9 +29,16 @@ extern void mpt_command_clear(const MPT_STRUCT(array) *arr)
 	cmd = (void *) (buf + 1);
 	
 	for (i = 0; i < len; ++i) {
-		if (cmd[i].cmd) {
-			cmd[i].cmd(cmd[i].arg, 0);
+		int (*fcn)(void *, void *);
+		void *ctx;
+		if (!(fcn = cmd[i].cmd)) {
+			continue;
 		}
+		/* unregister first: the notification may look up or remove commands itself */
+		ctx = cmd[i].arg;
+		cmd[i].cmd = 0;
+		cmd[i].arg = 0;
+		fcn(ctx, 0);
 	}
 	buf->_used = 0;
 }
